@@ -326,11 +326,12 @@ def reader_correspondence(ctx, d, pkg, env, stats, quick):
     stats["reader_rune_disagreements"] = stats.get("reader_rune_disagreements", 0) + nr
 
 
-TOKNAMES = ["ID", "NUM", "KW", "OP", "WS", "EOL", "COMMENT", "STR", "AB"]
+# ERR: the name of the emitted package's own error marker - a terminal like any other for the property
+TOKNAMES = ["ID", "NUM", "KW", "OP", "WS", "EOL", "COMMENT", "STR", "AB", "ERR"]
 PATTERNS = {"ID": ["[a-z]+", "[a-z][a-z0-9_]*", "[a-zA-Z_]+", "[a-z\\x00E0-\\x00FF]+"], "NUM": ["[0-9]+", "[0-9]+(\\.[0-9]+)?", "-?[0-9]+"],
             "KW": ["if|in|int", "while"], "OP": ["=+", "<=?", "\\+\\+?|-"], "WS": ["[ \\x09]+", " +"], "EOL": ["\\x0A", "\\x0D?\\x0A"],
-            "COMMENT": ["#[a-z ]*", "//[a-z]*", "#[^\\x0A]*", "//.*"], "STR": ["'[a-z ]*'", "\\x22[a-z]*\\x22", "\\x22[^\\x22]*\\x22", "'[^']*'", "<.*>"], "AB": ["(ab)*c", "(ab)+", "a(bc)*d", "\\x03B1+", "[\\x03B1\\xFFFD]+", "\\x10FFFF|\\x0080+"]}
-LITERALS = ["if", "else", "=", "==", "(", ")", ";", "+", "in", "\\\\", "'"]
+            "COMMENT": ["#[a-z ]*", "//[a-z]*", "#[^\\x0A]*", "//.*"], "STR": ["'[a-z ]*'", "\\x22[a-z]*\\x22", "\\x22[^\\x22]*\\x22", "'[^']*'", "<.*>"], "ERR": ["!+", "err|[0-9]+"], "AB": ["(ab)*c", "(ab)+", "a(bc)*d", "\\x03B1+", "[\\x03B1\\xFFFD]+", "\\x10FFFF|\\x0080+"]}
+LITERALS = ["if", "else", "=", "==", "(", ")", ";", "+", "in", "\\\\", "'", "ERR"]
 
 
 def gen_spec(rng):
@@ -415,6 +416,43 @@ def gen_text(rng, dfa, maxtok, short):
     return t
 
 
+def long_run_of_skipped_tokens(ctx, rng, dfa, auto_line, spec, binary, stats, enabled):
+    """`The token stream does not depend on the input's length`: a token, then millions of skipped tokens (blank lines where
+    WS/EOL are declared, otherwise discarded characters), then a token - expected: what the model says for the same text with three
+    such lines, the second token moved by the difference."""
+    if not enabled:
+        return
+    K = 2400000
+    unit = " \n"
+    for _ in range(12):
+        lx = random_lexeme(rng, dfa, 6)
+        if not lx or "\n" in lx or "\x00" in lx:
+            continue
+        short, long_ = lx + unit * 3 + lx, lx + unit * K + lx
+        w = ctx.run_model_par("emitscan", [auto_line + " " + hx(short.encode())])[0]
+        if w.endswith("|EOF") and w.count(";") == 1:
+            break           # the short text is `token, skipped run, token` for this automaton
+    else:
+        return
+    first, second = w[:-4].split(";")
+    f = second.split(" ")
+    f[2] = str(int(f[2]) + len(unit) * (K - 3)); f[3] = str(int(f[3]) + (K - 3))
+    expected = first + ";" + " ".join(f) + "|EOF"
+    try:
+        p = subprocess.run([binary], input=(hx(long_.encode()) + "\n").encode(), stdout=subprocess.PIPE, stderr=subprocess.PIPE, timeout=300)
+    except subprocess.TimeoutExpired:
+        ctx.add_violation("the compiled emitted lexer does not terminate on a long run of skipped tokens",
+                          {"input": spec, "input_hex": hx(spec.encode()), "text": "%r + %r * %d + %r" % (lx, unit, K, lx)})
+        return
+    got = p.stdout.decode().strip()
+    stats["texts_with_millions_of_skipped_tokens"] = stats.get("texts_with_millions_of_skipped_tokens", 0) + 1
+    if p.returncode != 0 or got != expected:
+        ctx.add_violation("the token stream of the compiled emitted lexer depends on the input's length: a run of %d blank lines between two tokens" % K,
+                          {"input": spec, "input_hex": hx(spec.encode()), "text": "%r + %r * %d + %r" % (lx, unit, K, lx), "text_gen": {"head": lx, "repeat": unit, "times": K, "tail": lx},
+                           "emitted_lexer": (decode_hex_fields(got)[:600] if p.returncode == 0 else "exit status %d: %s" % (p.returncode, p.stderr.decode()[:600])),
+                           "expected": decode_hex_fields(expected)[:600], "automaton": auto_line[:1500]})
+
+
 def parse_emit(line):
     f = dict(x.split("=", 1) for x in line.split(" ")[1:] if "=" in x)
     return unhx(f["name"]).decode(), line.split(" ", 2)[2]
@@ -444,9 +482,12 @@ def run(ctx):
     try:
         made = 0
         tries = 0
+        # always among the packages: blanks, tabs, newlines and comments as tokens of their own that are skipped (a blank line is
+        # two skipped tokens), and a terminal called like the emitted package's error marker
+        forced = ['grammar lx;\nstart = ID ERR NUM;\nWS = /[ \\x09]/;\nEOL = /\\x0A/;\nCOMMENT = /#[a-z]*/;\nID = /[a-z]+/;\nERR = /!+/;\nNUM = /[0-9]+/;\n']
         while made < nspec and tries < nspec * 6:
             tries += 1
-            text = gen_spec(rng)
+            text = forced.pop(0) if forced else gen_spec(rng)
             d = os.path.join(root, "m%d" % made)
             os.makedirs(d)
             o = ctx.run_impl("emit", [hx(text.encode()) + " " + hx(d.encode())], isolate=True)[0]
@@ -502,6 +543,7 @@ def run(ctx):
                         if grown:
                             std_texts.append("a " + grown + " " + lx)
                             stats["texts_with_tokens_longer_than_the_buffer"] = stats.get("texts_with_tokens_longer_than_the_buffer", 0) + 1
+            long_run_of_skipped_tokens(ctx, rng, dfa, auto_line, text, bins["std"], stats, made <= (1 if quick else 20))
             for variant, texts in (("small", small_texts), ("std", std_texts)):
                 lines = [hx(t.encode()) for t in texts]
                 try:
